@@ -132,3 +132,24 @@ Definition ir_has_keyword (m : module) : bool :=
   || existsb (fun c => opt_kw (c_name c)) (constants m)
   || existsb (fun o => opt_kw (od_name o)) (overrides m)
   || existsb (fun e => is_keyword (e_name e)) (entries m).
+
+(** * the statement of C01 over the model: outside the known-finding classes the output is [rust_wf] *)
+(** the known-finding classes that are conditions on the WGSL identifiers / member types, decided on the output
+    (the same predicates the check evaluates on every real output; KF-C01-vertex-struct-not-emitted is excluded by
+    the premise [wf_vertex_inputs] instead) *)
+Definition kf_any (o : out) : bool :=
+  existsb is_keyword (out_idents o)
+  || negb (str_nodup (type_names o)) || negb (str_nodup (value_names o))
+  || negb (str_nodup (flat_map (fun c => [cp_wg_const c; cp_fn c]) (o_compute o)))
+  || negb (forallb (fun v => str_nodup (ve_params v ++ (if ve_ov_param v then ["overrides"] else []))) (o_ventries o))
+  || negb (forallb struct_bounds_ok (o_structs o))
+  || existsb (fun n => existsb (String.eqb n) prelude_names) (map s_name (o_structs o))
+  || const_captures_binder o.
+
+(** premises WGSL guarantees (evaluated per case): member names are distinct within a struct, override names are distinct *)
+Definition member_names (ms : list member) : list string :=
+  flat_map (fun mem => match m_name mem with Some n => [n] | None => [] end) ms.
+Definition wf_member_names (m : module) : bool :=
+  forallb (fun t => match t_inner t with TStruct ms _ => str_nodup (member_names ms) | _ => true end) (types m).
+Definition wf_override_names (m : module) : bool :=
+  str_nodup (flat_map (fun o => match od_name o with Some n => [n] | None => [] end) (overrides m)).
